@@ -16,7 +16,8 @@ META = {
     "returned/current engine and the unchanged selection after a refusal; (b) per configuration with an "
     "explicit engine: no get_current_engine() call on any path, every primitive/var/vcat/max dispatched on the "
     "explicit engine, the selection never stored; per configuration without an engine: everything dispatched "
-    "on the current engine, selection never stored",
+    "on the current engine, selection never stored"
+    "; sequences of two selections; engine names that are parts / joins of engine names; use() after a caller modified the dict returned by get_available_engines(); the import-time selection in sym_metanet/__init__.py interpreted with all / some / no engine importable",
     "explanation": "The abstract world has two distinguishable engine objects (explicit, currently selected); "
     "every engine-level call records the object it was reached through, on every path of Network.step over "
     "all local topology classes and element kinds.",
